@@ -171,6 +171,19 @@ func Shrink(t *testing.T, P Property, p *Plan, v *Violation) *Plan {
 					progress = true
 				}
 			}
+			if best.Variants[vi].GateReads {
+				c := best.Clone()
+				c.Variants[vi].GateReads, c.Variants[vi].SchedSeed = false, 0
+				if try(c) {
+					progress = true
+				} else if best.Variants[vi].SchedSeed != 1 {
+					c := best.Clone()
+					c.Variants[vi].SchedSeed = 1
+					if try(c) {
+						progress = true
+					}
+				}
+			}
 			if len(best.Variants[vi].DelaysMs) > 0 {
 				c := best.Clone()
 				c.Variants[vi].DelaysMs = nil
